@@ -279,15 +279,15 @@ def _run_raw(exe, lines, timeout):
 # a tree that is broken badly kills the driver on thousands of lines; each death costs a sanitizer report and a new
 # process.  After this many deaths in one chunk the rest of the chunk is not run (reported as such): the check
 # has long failed by then, and a seeded-change run ends in minutes instead of a quarter of an hour
-MAX_DEATHS_PER_CHUNK = 40
+MAX_DEATHS_PER_CHUNK = 400      # default; the extensible-type and leaf layers (no known crash findings there) pass 40
 
 
-def _run_chunk(exe, lines, timeout):
+def _run_chunk(exe, lines, timeout, max_deaths=MAX_DEATHS_PER_CHUNK):
     outs = []
     errs = {}
     pos = 0
     guard = 0
-    while pos < len(lines) and guard < MAX_DEATHS_PER_CHUNK:
+    while pos < len(lines) and guard < max_deaths:
         guard += 1
         chunk = lines[pos:]
         rc, out, err = _run_raw(exe, chunk, timeout)
@@ -313,7 +313,7 @@ def _run_chunk(exe, lines, timeout):
     return outs, errs
 
 
-def run_many(jobs, nproc=None, timeout=150, per_chunk=80):
+def run_many(jobs, nproc=None, timeout=150, per_chunk=80, max_deaths=MAX_DEATHS_PER_CHUNK):
     """jobs = [(exe, lines)]; all chunks of all jobs share one pool of processes.
     Returns [(outputs, {index: (kind, rc, stderr tail)})] in the order of jobs"""
     nproc = nproc or NCPU
@@ -327,7 +327,7 @@ def run_many(jobs, nproc=None, timeout=150, per_chunk=80):
             tasks.append((j, i, exe, lines[i:i + size]))
     res = [([None] * len(lines), {}) for (exe, lines) in jobs]
     with ThreadPoolExecutor(max_workers=nproc) as ex:
-        futs = [(j, i, ex.submit(_run_chunk, exe, ch, timeout)) for (j, i, exe, ch) in tasks]
+        futs = [(j, i, ex.submit(_run_chunk, exe, ch, timeout, max_deaths)) for (j, i, exe, ch) in tasks]
         for j, i, f in futs:
             o, e = f.result()
             res[j][0][i:i + len(o)] = o
